@@ -88,6 +88,13 @@ impl InputGenerator {
 
             codes::TABULATION => ControlInput::Tab,
 
+            // second byte of a \r\n or \n\r pair is ignored, but it is consumed by that pair
+            // and must not be paired again with the \r or \n that follows
+            codes::CARRIAGE_RETURN | codes::LINE_FEED => {
+                self.last_byte = 0;
+                return None;
+            }
+
             // process only non control ascii chars (and utf8)
             byte if byte >= 0x20 => return self.utf8.push_byte(byte).map(Input::Char),
 
